@@ -561,28 +561,28 @@ def check(run):
                 "return passes the origin transform, the element parser and the validators loop under their guards, in "
                 "order, with results assigned back; early exits are the two accepted shortcuts; (R01d) stores into the "
                 "binding results of the lookup strategies and parse_params are parse results.")
-    r01a(run)
-    r01b(run)
-    r01c(run)
-    r01d(run)
-    r01e(run)
+    run.rule(r01a, run)
+    run.rule(r01b, run)
+    run.rule(r01c, run)
+    run.rule(r01d, run)
+    run.rule(r01e, run)
     # shared with C10 / C11: the options in effect are the ones that were written - a merge can only switch an unsafe
     # option back off if explicitly passed options are recorded whatever their value
     from . import c10
     run.rules_run.append("R10h")
-    c10.r10h(run)
+    run.rule(c10.r10h, run)
     # a recorded error must reach the context its owner flushes, otherwise the raw value is returned (shared with C10)
     from . import c10
     run.rules_run.append("R10e")
-    c10.r10e(run, c04.in_scope_functions(run), rule="R10e")
-    c10.r10b(run, c04.in_scope_functions(run) + list(run.repo.module("utype.parser.options").functions.values()))
+    run.rule(c10.r10e, run, c04.in_scope_functions(run), rule="R10e")
+    run.rule(c10.r10b, run, c04.in_scope_functions(run) + list(run.repo.module("utype.parser.options").functions.values()))
     # a declaration resolved late must keep its constraints (shared with C17)
     from . import c17
     run.rules_run.append("R17c")
-    c17.r17c(run)
+    run.rule(c17.r17c, run)
     # the ~ / ^ branches rely on the error being recorded before it is raised (shared with C10); inherited field
     # declarations must be the nearest ones (shared with C05)
     from . import c05
     run.rules_run += ["R10c", "R05h"]
-    c10.r10c(run)
-    c05.r05h(run)
+    run.rule(c10.r10c, run)
+    run.rule(c05.r05h, run)
